@@ -11,6 +11,7 @@ V = os.path.dirname(os.path.dirname(os.path.abspath(__file__)))
 sys.path.insert(0, V)
 sys.dont_write_bytecode = True
 ROOT = os.environ.get("REF_ROOT", "/tmp/seed3")
+TAG = os.environ.get("REF_TAG", "")
 
 
 def sh(cmd, cwd=None, env=None, timeout=1200):
@@ -30,7 +31,7 @@ def confirm(prop, k, slot):
         os.makedirs("/tmp/verify", exist_ok=True)
         sh("git -C /repo worktree add -q --detach %s HEAD" % wt)
     sh("git checkout -q --detach main && git checkout -- . && git clean -fdq", cwd=wt)
-    res = {"id": "%s-%d" % (prop, k), "property": prop, "k": k}
+    res = {"id": "%s-%s%d" % (prop, (TAG + "-") if TAG else "", k), "property": prop, "k": k}
     rc, out = sh("git apply %s" % patch, cwd=wt)
     if rc:
         res.update(ok=False, why="patch does not apply: " + out[-200:])
